@@ -9,7 +9,10 @@
      let Ok(result) = result else { return empty };
      let s = result.get_main_result();
      if s.is_empty() || result.is_unit_type() || s.len() > 50
-        || s.trim() == input.trim() || s.contains(|c| c < ' ') { return empty }
+        || s.trim() == input.trim()
+        || s.contains(|c: char| c.is_control() || c == '\u{2028}' || c == '\u{2029}')
+     { return empty }                (the last clause was  s.contains(|c| c < ' ')
+                                      before the repair eacb46c: keep_old)
      result
 
    The evaluator is NOT modelled here: it is an arbitrary program over the
@@ -45,8 +48,15 @@ Fixpoint trim_start (s : list N) : list N :=
 
 Definition trim (s : list N) : list N := rev (trim_start (rev (trim_start s))).
 
-(* s.contains(|c| c < ' ') *)
+(* before eacb46c: s.contains(|c| c < ' ') *)
 Definition has_c0 (s : list N) : bool := existsb (fun c => c <? 32) s.
+
+(* char::is_control = general category Cc = C0, DEL, C1 *)
+Definition is_control (c : N) : bool := (c <? 32) || ((127 <=? c) && (c <=? 159)).
+
+(* s.contains(|c: char| c.is_control() || c == U+2028 || c == U+2029) *)
+Definition has_ctl (s : list N) : bool :=
+  existsb (fun c => is_control c || (c =? 8232) || (c =? 8233)) s.
 
 Definition is_nil {A} (s : list A) : bool := match s with [] => true | _ => false end.
 
@@ -56,7 +66,7 @@ Definition is_line_break (c : N) : bool :=
   ((10 <=? c) && (c <=? 13)) || (c =? 133) || (c =? 8232) || (c =? 8233).
 Definition single_line (s : list N) : bool := negb (existsb is_line_break s).
 
-(* classifier of the known deviation: a line break that is not a C0 control *)
+(* classifier of the deviation repaired in eacb46c: a line break that is not a C0 control *)
 Definition known_c13_linebreak (s : list N) : bool :=
   existsb (fun c => (c =? 133) || (c =? 8232) || (c =? 8233)) s.
 
@@ -154,6 +164,14 @@ Definition keep (input : list N) (r : fresult) : bool :=
         || r_unit r
         || (50 <? utf8_length (r_text r))
         || list_N_eqb (trim (r_text r)) (trim input)
+        || has_ctl (r_text r)).
+
+(* the output filter before the repair eacb46c *)
+Definition keep_old (input : list N) (r : fresult) : bool :=
+  negb (is_nil (r_text r)
+        || r_unit r
+        || (50 <? utf8_length (r_text r))
+        || list_N_eqb (trim (r_text r)) (trim input)
         || has_c0 (r_text r)).
 
 Definition preview_filter (input : list N) (o : outcome) : fresult :=
@@ -207,6 +225,7 @@ Arguments SetVars {vars settings payload}.
 Arguments GetSettings {vars settings payload}.
 Arguments SetSettings {vars settings payload}.
 Arguments keep {payload}.
+Arguments keep_old {payload}.
 Arguments preview_filter {payload}.
 Arguments empty_result {payload}.
 
